@@ -41,6 +41,7 @@ type voBounds struct {
 	tampers  []int // what may happen to the files while the node is down
 	peers    []int // peers files offered at each open
 	closeOpt []int // 0: snapshot on close, 1: no snapshot on close
+	failures int   // engine only: the k-th call of the environment during Open fails, k in 1..failures (0: none)
 }
 
 func voCheckTags(id string, got []int, ok bool, want []int) {
@@ -52,18 +53,59 @@ func voCheckTags(id string, got []int, ok bool, want []int) {
 }
 
 // voOpenAgain: one open of an existing data directory and everything that has to hold afterwards.
-func voOpenAgain(w *voWorld, h *voHist, peers int, p int) {
+func voOpenAgain(w *voWorld, h *voHist, b voBounds, peers int, p int) {
 	vouchedBefore := w.markerVouchesForMainFile()
 	walBefore := w.walHoldsWrites()
 	wasElectable := w.electable
+	staleRecoveryWAL := w.exists(w.recoveryWALPath())
+	newestIncremental := w.newestSnapshotIsIncremental()
+	// four or more snapshots make the snapshot store reap in the background: outside the bounds
+	verifAssume(w.snapshotCount() < 3)
 	s := w.newStore()
 	w.setPeers(peers)
 	w.s = s
+	failurePoints := b.failures
+	if peers == voPeersNone {
+		failurePoints = b.failures / 2 // a plain restart makes fewer than half as many calls
+	}
+	if b.failures > 0 {
+		w.failAt = w.choose(verifName("failing-call-", p), failurePoints+1)
+		w.injecting, w.envCalls, w.injected = true, 0, ""
+	}
 	err := s.Open()
 	verifSettle()
+	w.injecting = false
 
 	recovering := peers != voPeersNone
-	if peers == voPeersNoVoter || peers == voPeersGarbage {
+	confKnown := true
+	if b.failures > 0 && w.failAt > w.envCalls {
+		verifReach("failing-call-number-beyond-the-last-call")
+	}
+	if b.failures > 0 && w.injected == "" {
+		// self-check of the harness: the numbers offered for the failing call reach every call
+		verifAssert("C33b-harness-every-call-of-the-environment-can-be-chosen", w.envCalls <= failurePoints)
+	}
+	if w.injected != "" && err == nil {
+		verifReach("injected-failure-tolerated")
+	}
+	if w.injected != "" && err != nil {
+		// Open failed because its environment failed: whatever it had done by then, nothing the node
+		// had applied may be lost. The operator takes the peers file away (if it is still there)
+		// and starts the node in a working environment.
+		verifReach("open-failed-on-an-injected-failure")
+		if w.injected == "log.DeleteRange" {
+			verifReach("log-compaction-failed-after-the-new-snapshot")
+		}
+		w.abandon()
+		w.removePeers()
+		s = w.newStore()
+		w.s = s
+		err = s.Open()
+		verifSettle()
+		verifAssert("C33-failed-open-destroys-nothing", err == nil)
+		recovering = false
+		confKnown = false // the failed recovery may or may not have installed the peers configuration
+	} else if peers == voPeersNoVoter || peers == voPeersGarbage {
 		verifReach("unusable-peers-file-refused")
 		verifAssert("C33-unusable-peers-file-refused", err != nil)
 		// the operator gives up on the recovery: nothing the node had applied may be lost
@@ -76,6 +118,16 @@ func voOpenAgain(w *voWorld, h *voHist, peers int, p int) {
 		verifAssert("C33-refused-recovery-destroys-nothing", err == nil)
 		recovering = false
 	} else {
+		if err != nil {
+			println("verif C33b: Open failed:", err.Error())
+		}
+		// Recorded defect (reproduced natively, see spec.json): RecoverNode removes its temporary
+		// database recovery.db but not recovery.db-wal; a later recovery whose newest snapshot is
+		// an incremental one (database file + WAL files) cannot restore it next to the stale WAL
+		// file ("cannot replay WAL files: existing WAL file present") and Open fails.
+		if err != nil && recovering && staleRecoveryWAL && newestIncremental {
+			verifFinding("C33-second-recovery-blocked-by-stale-recovery-wal")
+		}
 		verifAssert("C33-open-succeeds", err == nil)
 	}
 	w.started(s)
@@ -127,8 +179,10 @@ func voOpenAgain(w *voWorld, h *voHist, peers int, p int) {
 		verifAssert("C33-node-starts-with-exactly-the-peers-file-configuration", voSameConf(w.raftConf(), h.conf))
 		verifAssert("C33-peers-file-moved-away", !w.exists(w.peersPath()))
 		verifAssert("C33-peers-file-kept-as-peers-info", w.exists(w.peersInfo()))
-	} else {
+	} else if confKnown {
 		verifAssert("C33-restart-keeps-the-configuration", voSameConf(w.raftConf(), h.conf))
+	} else {
+		h.conf = w.raftConf()
 	}
 
 	// node-local index
@@ -141,6 +195,8 @@ func voOpenAgain(w *voWorld, h *voHist, peers int, p int) {
 		st, ok2 := w.newestSnapshotTags()
 		voCheckTags("C33-marker-only-vouches-for-the-newest-snapshots-state", mt, ok1 && ok2, st)
 	}
+	// a file Open decided to keep has the checksum the marker recorded (production aborts otherwise)
+	verifAssert("C33-kept-file-has-the-recorded-checksum", !w.crcMismatch)
 	if verifSymbolic() {
 		verifAssert("C33-environment-used-sensibly", w.badCalls == 0)
 	}
@@ -184,6 +240,11 @@ func voRun(w *voWorld, entry string, b voBounds) *voHist {
 					h.nextTag++
 				case voOpNoop:
 					w.noop()
+				case voOpRewrite:
+					w.rewrite()
+					if len(h.applied) > 0 {
+						h.applied[len(h.applied)-1] += 10
+					}
 				case voOpSnapKeep1:
 					w.snapshotNow(1)
 				case voOpSnapKeepAll:
@@ -200,24 +261,24 @@ func voRun(w *voWorld, entry string, b voBounds) *voHist {
 			verifReach("wal-checkpointed-behind-the-markers-back")
 		}
 		w.observeDown()
-		voOpenAgain(w, h, w.pick(verifName("peers-file-", p), b.peers), p)
+		voOpenAgain(w, h, b, w.pick(verifName("peers-file-", p), b.peers), p)
 	}
 	w.report()
 	return h
 }
 
 var (
-	voAllOps    = []int{voOpWrite, voOpSnapKeep1, voOpSnapKeepAll, voOpNoop}
+	voAllOps    = []int{voOpWrite, voOpSnapKeep1, voOpSnapKeepAll, voOpNoop, voOpRewrite}
 	voAllPeers  = []int{voPeersNone, voPeersSelf, voPeersSelfPlus, voPeersThree, voPeersNoVoter, voPeersGarbage}
 	voAllTamper = []int{voTamperNoMarker, voTamperGarbageMarker, voTamperCRC0, voTamperSize, voTamperMtime, voTamperCheckpointSameTime, voTamperCheckpoint}
 )
 
-// VerifC33bReopen: every history of up to 3 (quick) / 5 (thorough) operations, shutdown with or
+// VerifC33bReopen: every history of up to 3 (quick) / 4 (thorough) operations, shutdown with or
 // without snapshot-on-close, every kind of peers file (or none).
 func VerifC33bReopen() {
 	b := voBounds{reopens: 1, maxOps: []int{3}, ops: voAllOps, tampers: []int{voTamperNone}, peers: voAllPeers, closeOpt: []int{0, 1}}
 	if verifTier() == 1 {
-		b.maxOps = []int{5}
+		b.maxOps = []int{4}
 	}
 	w := voNewWorld()
 	defer w.cleanup()
@@ -226,10 +287,10 @@ func VerifC33bReopen() {
 
 // VerifC33bWhileDown: the marker / the SQLite file are tampered with while the node is down.
 func VerifC33bWhileDown() {
-	b := voBounds{reopens: 1, maxOps: []int{3}, ops: voAllOps, tampers: voAllTamper,
+	b := voBounds{reopens: 1, maxOps: []int{3}, ops: []int{voOpWrite, voOpSnapKeep1, voOpRewrite}, tampers: voAllTamper,
 		peers: []int{voPeersNone, voPeersSelf}, closeOpt: []int{0, 1}}
 	if verifTier() == 1 {
-		b.maxOps = []int{4}
+		b.ops = voAllOps
 		b.peers = []int{voPeersNone, voPeersSelf, voPeersThree, voPeersGarbage}
 	}
 	w := voNewWorld()
@@ -243,13 +304,21 @@ func VerifC33bTwice() {
 	b := voBounds{reopens: 2, maxOps: []int{3, 1}, ops: []int{voOpWrite, voOpSnapKeep1}, tampers: []int{voTamperNone},
 		peers: []int{voPeersNone, voPeersSelf, voPeersThree}, closeOpt: []int{0, 1}}
 	if verifTier() == 1 {
-		b.maxOps = []int{3, 2}
-		b.ops = []int{voOpWrite, voOpSnapKeep1, voOpSnapKeepAll}
+		b.ops = []int{voOpWrite, voOpSnapKeep1, voOpRewrite}
 		b.peers = []int{voPeersNone, voPeersSelf, voPeersThree, voPeersGarbage}
 	}
 	w := voNewWorld()
 	defer w.cleanup()
 	voRun(w, "VerifC33bTwice", b)
+}
+
+// VerifC33bLong (thorough): longer histories of writes and snapshots (several snapshots, compacted log).
+func VerifC33bLong() {
+	b := voBounds{reopens: 1, maxOps: []int{6}, ops: []int{voOpWrite, voOpSnapKeep1}, tampers: []int{voTamperNone},
+		peers: []int{voPeersNone, voPeersSelf, voPeersThree}, closeOpt: []int{0, 1}}
+	w := voNewWorld()
+	defer w.cleanup()
+	voRun(w, "VerifC33bLong", b)
 }
 
 // VerifC33bThrice (thorough): three rounds of short periods.
@@ -259,6 +328,23 @@ func VerifC33bThrice() {
 	w := voNewWorld()
 	defer w.cleanup()
 	voRun(w, "VerifC33bThrice", b)
+}
+
+// VerifC33bFailures (engine only): one call of the environment fails during the Open under test -
+// every call that can fail, one at a time (file removal / rename, the marker write, the database
+// open / checkpoint / swap, the snapshot store and the sink, the log). Either Open tolerates it and
+// everything holds as usual, or Open fails and a restart in a working environment (without the
+// peers file) serves everything the node had applied.
+func VerifC33bFailures() {
+	b := voBounds{reopens: 1, maxOps: []int{3}, ops: []int{voOpWrite, voOpSnapKeep1}, tampers: []int{voTamperNone},
+		peers: []int{voPeersNone, voPeersSelf}, closeOpt: []int{0, 1}, failures: 48}
+	if verifTier() == 1 {
+		b.ops = []int{voOpWrite, voOpSnapKeep1, voOpNoop}
+		b.peers = []int{voPeersNone, voPeersSelf, voPeersThree}
+	}
+	w := voNewWorld()
+	defer w.cleanup()
+	voRun(w, "VerifC33bFailures", b)
 }
 
 // Vacuity twin: claims that a reopened node never serves anything.
